@@ -402,6 +402,11 @@ Plan make_plan(const Profile &prof, uint64_t seed) {
   // only when it is the *first* one and a fault hits it)
   if (prof.check == "C14" && r.below(4) == 0) p.deep = 0;
   p.cold_check = (prof.check == "C14" || prof.check == "C09") && !p.deep;
+  // ... and a third of the cold worlds let the k-th scalar operation executed
+  // inside a lazily run initialiser (function-local static, call_once routine)
+  // fail: an initialiser that publishes a half-built table is visible only to
+  // later calls, i.e. to the end-of-run oracle
+  if (p.cold_check && prof.check == "C14" && r.below(3) == 0) p.static_init_throw = 1 + (int)r.below(16);
   return p;
 }
 
